@@ -303,15 +303,65 @@ def float_unlimited(rep, tier, sd):
     rep.notes["unlimited_float_calls"] = n
 
 
+def components_glue(rep, tier, sd):
+    """components.py builds the batteries: the discharge (unloading) curve handed to Battery must be the component's
+    discharge curve — explicit or derived — and discharging must stay within it (implementation-level, floats)"""
+    import datetime
+    import random
+    C.setup_repo_path()
+    from spice_ev.components import StationaryBattery, VehicleType, Vehicle
+    rng = random.Random("c01/glue/%d" % sd)
+    n = 0
+    for _ in range(30 if tier == "quick" else 300):
+        P = rng.choice([10, 22, 50])
+        cc = [[0, P], [0.8, P], [1, P / 2]] if rng.random() < 0.5 else [[0, P], [1, P]]
+        dc = rng.choice([None, [[0, 0], [0.2, P / 4], [1, P / 4]], [[0, P / 5], [1, P / 5]], [[0, 0], [0.5, 0], [1, 2 * P]]])
+        soc = rng.choice([0.1, 0.3, 0.6, 0.9, 1.0])
+        spec = {"parent": "GC1", "capacity": rng.choice([20, 100]), "charging_curve": cc, "soc": soc}
+        if dc is not None:
+            spec["discharge_curve"] = dc
+        kind = rng.choice(["battery", "vehicle"])
+        if kind == "battery":
+            obj = StationaryBattery(spec)
+        else:
+            vt = {"name": "vt", "capacity": spec["capacity"], "charging_curve": cc, "v2g": True, "v2g_power_factor": rng.choice([0.5, 1])}
+            if dc is not None:
+                vt["discharge_curve"] = dc
+            vtype = VehicleType(vt)
+            obj = Vehicle({"vehicle_type": "vt", "soc": soc}, {"vt": vtype}).battery
+            dcurve = vtype.discharge_curve
+        want = ((obj.discharge_curve if obj.discharge_curve is not None else obj.charging_curve) if kind == "battery" else dcurve)
+        n += 1
+        if [tuple(p) for p in obj.unloading_curve.points] != [tuple(p) for p in want.points]:
+            rep.add_violation("C01/components-discharge-curve", "%s built from %r: Battery.unloading_curve %r is not the component's discharge curve %r"
+                              % (kind, spec, obj.unloading_curve.points, want.points), {"unit": "glue", "case": {"spec": spec, "kind": kind}})
+            continue
+        T = datetime.timedelta(minutes=rng.choice([5, 15, 60]))
+        s0 = obj.soc
+        p_av = obj.get_available_power(T)
+        if obj.soc != s0:
+            rep.add_violation("C01/avail-changes-state", "%s: get_available_power changed the SoC %r -> %r" % (kind, s0, obj.soc), {"unit": "glue", "case": {"spec": spec}})
+        r = obj.unload(T)
+        lim = max(p for _, p in want.points)
+        if r["avg_power"] > lim * (1 + 1e-9) + 1e-9 or p_av > lim * (1 + 1e-9) + 1e-9:
+            rep.add_violation("C01/power-limit", "%s built from %r: discharge %r / available %r exceeds the discharge curve maximum %r"
+                              % (kind, spec, r["avg_power"], p_av, lim), {"unit": "glue", "case": {"spec": spec, "kind": kind}})
+    rep.cov["evaluations"] += n
+    rep.notes["components_glue_cases"] = n
+
+
 def run(tier):
-    return corr.standard_run("C01", tier, [UNIT], 400, 6000, TRUSTED, RULE, extra=float_unlimited)
+    def extra(rep, tier_, sd):
+        float_unlimited(rep, tier_, sd)
+        components_glue(rep, tier_, sd)
+    return corr.standard_run("C01", tier, [UNIT], 400, 6000, TRUSTED, RULE, extra=extra)
 
 
 def replay(payload):
     case = payload["input"]["case"]
-    if payload["input"].get("unit") == "unlimited-float":
+    if payload["input"].get("unit") in ("unlimited-float", "glue"):
         rep = C.Report("C01", "quick")
-        float_unlimited(rep, "quick", C.seed())
+        (float_unlimited if payload["input"]["unit"] == "unlimited-float" else components_glue)(rep, "quick", C.seed())
         for v in rep.violations:
             print("VIOLATION-REPLAY %s: %s" % (v["cls"], v["what"]))
         return 1 if rep.violations else 0
